@@ -61,8 +61,9 @@ def Exec.strip : Exec → Exec
   | .live => .none
   | e => e
 
-/-- `KeyError` (label lookup), `RuntimeError` (locked input), `TypeError` (class mismatch) -/
-inductive Err | key | runtime | type
+/-- `KeyError` (node label lookup), `AttributeError` (channel label lookup), `RuntimeError` (locked
+input), `TypeError` (class mismatch) -/
+inductive Err | key | attr | runtime | type
   deriving DecidableEq, Repr, Inhabited
 
 /-- a data channel as far as its `__dict__` goes (label, value, `strict_hints`) -/
@@ -200,6 +201,17 @@ def connectAll (g : CG) (l : List (Addr × Addr)) : CG := l.foldl (fun g p => co
 def checkStrs (inD outD : List Addr) (l : List (Addr × Addr)) : Bool :=
   l.all fun p => decide (p.1 ∈ inD) && decide (p.2 ∈ outD)
 
+/-- the first stored tuple that cannot be resolved, in the order the loop meets them:
+`input_panel(nodes[inp_node])[inp].connect(output_panel(nodes[out_node])[out])` -/
+def firstBad (labels : List Lbl) (inD outD : List Addr) : List (Addr × Addr) → Option Err
+  | [] => none
+  | p :: rest =>
+    if p.1.1 ∉ labels then some .key
+    else if p.1 ∉ inD then some .attr
+    else if p.2.1 ∉ labels then some .key
+    else if p.2 ∉ outD then some .attr
+    else firstBad labels inD outD rest
+
 /-- `_restore_connections_from_strings` on freshly unpickled (unconnected) children -/
 def restore (cfg : Cfg) (l : List (Addr × Addr)) : CG :=
   connectAll CG.empty (if cfg.revIter then l.reverse else l)
@@ -296,10 +308,15 @@ def setstate (cfg : Cfg) (c : Core) (cs : List Node) (ds ss fo : List (Addr × A
   else
     let c := if cfg.keepCache then c else c.afterAdopt cs
     let cs := cs.map Node.adopt
-    if !(checkStrs (inDom cs) (outDom cs) ds) then .error .key
-    else if !(checkStrs (sInDom cs) (sOutDom cs) ss) then .error .key
-    else if cfg.firing && !(checkStrs (sOutDom cs) (sInDom cs) fo) then .error .key
-    else
+    match firstBad (childLabels cs) (inDom cs) (outDom cs) ds with
+    | some e => .error e
+    | none =>
+    match firstBad (childLabels cs) (sInDom cs) (sOutDom cs) ss with
+    | some e => .error e
+    | none =>
+    match (if cfg.firing then firstBad (childLabels cs) (sOutDom cs) (sInDom cs) fo else none) with
+    | some e => .error e
+    | none =>
       let dg := restore cfg ds
       let sg := restoreSig cfg ss fo
       if c.kind.hasLinks then
